@@ -288,6 +288,9 @@ def main(tier, replay):
     else:
         cov.update(obligations=0, discharged=0)
         v.violation({"kind": "proof", "theorem_or_file": ["coq/theories/SI/Props.v missing"], "what": "no theorem yet"}, has_input=False)
+    if tier == "thorough" and cov.get("obligations") and cov.get("obligations") == cov.get("discharged"):
+        from perc_gate import thorough_coqchk
+        thorough_coqchk("Verif.SI.Props", cov, v)
     okd, exe = txnlab.build_driver()
     if not okd:
         v.violation({"kind": "harness-build", "correspondence": "txn driver build against the current tree", "error": exe}, has_input=False)
